@@ -96,8 +96,17 @@ func RichTemplate(lbls map[string]string, r *PRNG) v1.PodTemplateSpec {
 	}
 	if r.Chance(0.3) {
 		s := int64(r.Intn(300))
+		if r.Chance(0.3) {
+			// admitted by pod validation (no upper bound) and beyond float64's exact
+			// integers: the upstream encoder rounds it, byte identity must survive that
+			s = []int64{1<<53 + 1, 1<<62 + 12345, 1<<53 - 1}[r.Intn(3)]
+		}
 		t.Spec.ActiveDeadlineSeconds = nil
 		t.Spec.TerminationGracePeriodSeconds = &s
+	}
+	if r.Chance(0.15) {
+		ts := int64(1<<53 + 3)
+		t.Spec.Tolerations = append(t.Spec.Tolerations, v1.Toleration{Key: "big", Operator: v1.TolerationOpExists, Effect: v1.TaintEffectNoExecute, TolerationSeconds: &ts})
 	}
 	if r.Chance(0.2) {
 		t.Annotations = map[string]string{"prometheus.io/scrape": "true", "n": fmt.Sprint(r.Intn(9))}
@@ -230,7 +239,7 @@ func (s *Sim) stepMkBuiltin(st Step) bool {
 	}
 	Mutate(s.Store, KBSet, NS, c.Name, func(o *appsv1.StatefulSet) bool {
 		o.Status = appsv1.StatefulSetStatus{ObservedGeneration: o.Generation, Replicas: c.Replicas, ReadyReplicas: c.Replicas, CurrentReplicas: nCur, UpdatedReplicas: nUpd,
-			CurrentRevision: cur, UpdateRevision: upd, CollisionCount: int32p(0), AvailableReplicas: c.Replicas}
+			CurrentRevision: cur, UpdateRevision: upd, CollisionCount: int32p(int32(abs(st.D) % 3 / 2)), AvailableReplicas: c.Replicas}
 		return true
 	})
 	s.oracles.migrated[c.Name] = &migration{revNames: names, tmpl: templateContent(&tmpls[len(tmpls)-1]), updName: upd, revData: revData}
